@@ -548,9 +548,15 @@ def createOp (toks : List String) : Option String :=
       if op == "cr.ok" then some (toString (createOk creds stmts))
       else some (match createProofs creds stmts with
         | none => "err"
-        | some ps => if ps.isEmpty then "-" else ";".intercalate (ps.map fun p =>
+        | some ps =>
+          let proofs := if ps.isEmpty then "-" else ";".intercalate (ps.map fun p =>
             p.id ++ "/" ++ kindName p.kind ++ "/" ++ toString p.n ++ "/" ++
-              (if p.revealed.isEmpty then "-" else ",".intercalate (p.revealed.map toString))))
+              (if p.revealed.isEmpty then "-" else ",".intercalate (p.revealed.map toString)))
+          let dis := match createReport creds stmts with
+            | none => "?"
+            | some ds => if ds.isEmpty then "-" else ";".intercalate (ds.map fun d =>
+                d.1 ++ "/" ++ (if d.2.isEmpty then "-" else ",".intercalate d.2))
+          proofs ++ " D " ++ dis)
     | _, _ => none
   | _ => none
 
